@@ -26,7 +26,7 @@ func init() {
 	runner.Register(&runner.Check{
 		ID:    "C12",
 		Level: "exploration",
-		Rule: "program = 2 (quick) or 3 (thorough) rules of one phase whose transformation lists are drawn from {[], [lowercase], [lowercase,trim], [lowercase,trim,removeWhitespace], [trim], [trim,lowercase], [urlDecode], [urlDecode,urlDecode], [uppercase,lowercase], [hexDecode], [hexDecode,lowercase] (hexDecode fails on most values)} over targets " +
+		Rule: "program = 2 (quick) or 3 (thorough) rules of one phase whose transformation lists are drawn from {[], [lowercase], [lowercase,trim], [lowercase,trim,removeWhitespace], [trim], [trim,lowercase], [urlDecode], [urlDecode,urlDecode], [uppercase,lowercase], [hexDecode], [hexDecode,lowercase] (hexDecode fails on most values)} plus a family of two / three counting rules over requests with 12..999 values (counts of up to three digits through shared prefixes); targets " +
 			"{ARGS_GET, ARGS_GET:a, ARGS_GET|!ARGS_GET:b, &ARGS_GET, ARGS, REQUEST_HEADERS, chain->MATCHED_VAR (raw and t:trimRight starters), chain->MATCHED_VARS, multiMatch rules, ENV:k rewritten by setenv between rules, RULE:id}; " +
 			"request = repeated / case-variant names with values that the transformations change differently; every map order within the bound; each transaction is run twice on the same (pool-recycled) object. " +
 			"Oracle: the same program with rule i's list prefixed by a distinct identity transformation registered through the plugin API (no two rules can then share a cache entry) must give the same fired rules and match data. " +
@@ -78,6 +78,40 @@ var requests = []scen.Req{
 	{URI: "/p?a=%252578&a=%2578%20&b=x%20%20"}, // decoded once by the query parser: "%2578", "%78 ", "x  "
 }
 
+// reqOverride replaces the request list for one family (nil = the common list).
+var reqOverride []scen.Req
+
+// largeCounts: counts of three and four digits through shared transformation prefixes. Two counting targets of one
+// collection whose counts have the same number of digits must each see their own number.
+func largeCounts(c *runner.Ctx, idx *int, bound int) {
+	big := func(na, nb int) scen.Req {
+		var parts []string
+		for i := 0; i < na; i++ {
+			parts = append(parts, "a=x")
+		}
+		for i := 0; i < nb; i++ {
+			parts = append(parts, "b=y")
+		}
+		return scen.Req{URI: "/p?" + strings.Join(parts, "&")}
+	}
+	reqOverride = []scen.Req{big(100, 101), big(250, 999), big(99, 100), big(12, 13)}
+	defer func() { reqOverride = nil }()
+	// hexEncode: the lists must produce a new string (one that returns its input unchanged hands back the very
+	// memory the count was rendered into, which hides a stale cache entry behind the fresh digits)
+	lists := [][]string{{"hexEncode"}, {"lowercase", "hexEncode"}, {"hexEncode", "lowercase"}, {"trim", "hexEncode"}, {"lowercase"}, {"hexEncode", "hexDecode"}}
+	for _, l1 := range lists {
+		for _, l2 := range lists {
+			*idx++
+			if !c.Mine(*idx) || c.Expired() {
+				continue
+			}
+			c.Count("large_count_programs", 1)
+			checkProgram(c, []ruleT{{Target: "&ARGS_GET:a", Kind: "lastdigit", Trans: l1}, {Target: "&ARGS_GET:b", Kind: "lastdigit", Trans: l2}}, bound)
+			checkProgram(c, []ruleT{{Target: "&ARGS_GET:b", Kind: "lastdigit", Trans: l1}, {Target: "&ARGS_GET", Kind: "lastdigit", Trans: l2}, {Target: "&ARGS_GET:a", Kind: "lastdigit", Trans: l1}}, bound)
+		}
+	}
+}
+
 func tlist(tr []string, idPrefix int) string {
 	var parts []string
 	if idPrefix > 0 {
@@ -107,6 +141,9 @@ func render(rules []ruleT, ref bool) string {
 		switch r.Kind {
 		case "plain":
 			fmt.Fprintf(&sb, "SecRule %s \"@rx ^[x1-9]\" \"id:%d,phase:2,pass,log%s\"\n", r.Target, id, tl)
+		case "lastdigit":
+			// tells neighbouring numbers apart (100 / 101, 250 / 999, 12 / 13)
+			fmt.Fprintf(&sb, "SecRule %s \"@rx [13-9]$\" \"id:%d,phase:2,pass,log%s\"\n", r.Target, id, tl)
 		case "mvar":
 			fmt.Fprintf(&sb, "SecRule %s \"@rx .\" \"id:%d,phase:2,pass,log,chain\"\n  SecRule MATCHED_VAR \"@rx ^x\" \"%s\"\n", r.Target, id, strings.TrimPrefix(tl, ","))
 		case "mvart":
@@ -226,6 +263,10 @@ func run(c *runner.Ctx) {
 		}
 	}
 	rec(nil)
+	largeCounts(c, &idx, bound)
+	if c.Worker == c.Workers-1 {
+		manyChains(c)
+	}
 	c.Extra("deviation_bound", bound)
 }
 
@@ -252,7 +293,11 @@ func checkProgram(c *runner.Ctx, rules []ruleT, bound int) {
 			}
 		}
 	}
-	for _, rq := range requests {
+	rqs := requests
+	if reqOverride != nil {
+		rqs = reqOverride
+	}
+	for _, rq := range rqs {
 		var ref string
 		st := mc.Explore(mc.Options{Bound: bound, MaxExecs: 3000}, func(cx *mc.Ctx) {
 			c.Count("evaluations", 1)
@@ -330,4 +375,69 @@ func replay(raw json.RawMessage) (bool, string) {
 	mc.Replay(k.Order, func(cx *mc.Ctx) { got = outcome(w, k.Req) })
 	mc.ReplayLenient(k.Order, func(cx *mc.Ctx) { ref = outcome(wr, k.Req) })
 	return got != ref, fmt.Sprintf("configuration:\n%srequest: %s %s\nmap-order choices: %v\n--- with sharing:\n%s--- reference:\n%s", conf, k.Req.URI, k.Req.Body, k.Order, got, ref)
+}
+
+// manyChains: a long-lived process keeps compiling new transformation lists (tenants, reloads), so the ids that
+// identify list prefixes in the cache key grow without bound. Up to 2^16 + 4096 distinct prefixes are registered here
+// (32-step lists of appending plug-in transformations, 8 new lists per WAF plus 4 lists every WAF shares, which were
+// registered first); every rule must be evaluated against the value of its own list, however many lists exist.
+func manyChains(c *runner.Ctx) {
+	const steps, commonRules, tenantRules = 31, 4, 8
+	tenants := (1<<16+4096)/(tenantRules*(steps+1)) + 1
+	app := func(marker string) func(string) (string, bool, error) {
+		return func(in string) (string, bool, error) { return in + marker, true, nil }
+	}
+	var tail, tailValue strings.Builder
+	for k := 0; k < steps; k++ {
+		name := fmt.Sprintf("verifmc%d", k)
+		plugins.RegisterTransformation(name, app(fmt.Sprintf("|%d", k)))
+		tail.WriteString(",t:" + name)
+		fmt.Fprintf(&tailValue, "|%d", k)
+	}
+	type rule struct {
+		id         int
+		want, text string
+	}
+	mk := func(id int, head string) rule {
+		plugins.RegisterTransformation(head, app("#"+head))
+		return rule{id, "v#" + head + tailValue.String(),
+			fmt.Sprintf("SecRule ARGS_GET:p \"@rx ^.*$\" \"id:%d,phase:1,pass,log,logdata:'%%{MATCHED_VAR}',t:none,t:%s%s\"\n", id, head, tail.String())}
+	}
+	var common []rule
+	for r := 0; r < commonRules; r++ {
+		common = append(common, mk(1+r, fmt.Sprintf("verifmccommon%d", r)))
+	}
+	for tenant := 0; tenant < tenants && !c.Expired(); tenant++ {
+		rules := append([]rule{}, common...)
+		for r := 0; r < tenantRules; r++ {
+			rules = append(rules, mk(1000+r, fmt.Sprintf("verifmct%dx%d", tenant, r)))
+		}
+		var conf strings.Builder
+		conf.WriteString("SecRuleEngine On\n")
+		for _, r := range rules {
+			conf.WriteString(r.text)
+		}
+		w, err := scen.Build(conf.String())
+		if err != nil {
+			c.Violation("build:"+err.Error(), err.Error(), map[string]any{"many_chains": true, "tenant": tenant})
+			return
+		}
+		o := scen.Run(w, scen.Req{URI: "/?p=v"}, scen.Options{})
+		scen.Close(w)
+		c.Count("evaluations", 1)
+		c.Count("transformation_lists_registered", int64(tenantRules*(steps+1)))
+		seen := map[int]string{}
+		for _, m := range o.Matched {
+			if len(m.Datas) > 0 {
+				seen[m.ID] = strings.TrimPrefix(m.Datas[0], "ARGS_GET|p|") // the value the operator was given
+			}
+		}
+		for _, r := range rules {
+			if got := seen[r.id]; got != r.want {
+				c.Violation("wrong-value-under-sharing:after-many-transformation-lists", fmt.Sprintf("after %d WAFs (%d distinct list prefixes in this process) rule %d was evaluated against\n  %q\nits own list gives\n  %q", tenant+1, (tenant+1)*tenantRules*(steps+1), r.id, got, r.want), map[string]any{"many_chains": true, "tenant": tenant})
+				return
+			}
+		}
+	}
+	c.Distinct("many-chains")
 }
